@@ -1,6 +1,7 @@
 """C12 - snippet returns exactly n samples starting exactly at the requested time.
 
-Discrete part on deep pipelines: spec/Pipeline.tla via c01.run_pipeline(want=C12).
+Discrete part on deep pipelines: spec/Pipeline.tla (instance MC_PipelineSnip: snippet
+composed with the other time-axis operations) + c01.run_pipeline(want=C12) replay.
 spec/Snippet.tla: operational transcription of snippet (int(t) truncation, residual
 shift i - t, time_shift(crop=True) of ShiftOps, re-stamping, z[i:i+n]) vs the
 declarative statement; MC + a negative configuration (round instead of int).
@@ -269,15 +270,18 @@ def run(chk):
     rnd = random.Random(chk.seed)
     t = "full" if thorough else "quick"
     res = sl.parallel({
-        "pipeline": lambda: c01.run_pipeline(chk, want=("C12",)),
+        # replay of generated pipelines (shared replayer); the model checking of Pipeline.tla is done on the
+        # C12 instance below (snippet with the other time-axis operations), not on C01's all-operations instance
+        "pipeline": lambda: c01.run_pipeline(chk, want=("C12",), mc=None),
+        "mcpipe": lambda: tlc.run("MC_PipelineSnip", "MC_PipelineSnip_%s.cfg" % t, workers=6, timeout=3000),
         "mc": lambda: tlc.run("MC_Snippet", "MC_Snippet_%s.cfg" % t, workers=2, timeout=3000),
         "neg": lambda: tlc.run("MC_Snippet", "Neg_Snippet_round.cfg", workers=1, timeout=900),
         "cases": lambda: sl.gen("Gen_Snippet", "Gen_Snippet_%s.cfg" % t, workers=2),
         "table": lambda: sl.gen("Gen_Delay", "Gen_Delay_snip_%s.cfg" % t, workers=4, timeout=3000),
     })
-    pipeline_ok = chk.exhaustive
+    chk.mc_must_hold("MC_PipelineSnip_" + t, res["mcpipe"])
     chk.mc_must_hold("MC_Snippet_" + t, res["mc"])
-    chk.exhaustive = pipeline_ok and res["mc"].ok
+    chk.exhaustive = res["mcpipe"].ok and res["mc"].ok
     chk.add_tlc("Neg_Snippet_round (must be rejected)", res["neg"])
     if res["neg"].ok or res["neg"].violation is None:
         chk.machinery_errors.append("the wrong model (round instead of int) was not rejected by TLC: %s" % res["neg"].stdout[-1500:])
